@@ -103,9 +103,10 @@ def build_grader(spec):
         k = dict(c)
         k['user_functions'] = {n: USER_FUNCS[n] for n in c.get('user_functions', [])}
         return k
+    list_debug = cfg.pop('_list_debug', False)
     if cls == 'List':
         sub = mg.FormulaGrader(**kwargs_of(cfg))
-        return mg.ListGrader(answers=list(spec['answers']), subgraders=sub, ordered=True), sub
+        return mg.ListGrader(answers=list(spec['answers']), subgraders=sub, ordered=True, debug=list_debug), sub
     klass = {'Formula': mg.FormulaGrader, 'Numerical': mg.NumericalGrader, 'Matrix': mg.MatrixGrader, 'Sum': mg.SumGrader}[cls]
     g = klass(answers=spec['answers'], **kwargs_of(cfg))
     return g, g
@@ -349,6 +350,25 @@ def base_cfg(rng, restr=None):
     return cfg, restricted, allowed
 
 
+def author_options(rng, cls):
+    """author-side options that change code paths (debug output, number of samples, tolerated failures) but not the
+    restrictions: every cheating-formula stream is crossed with them"""
+    o = {}
+    if rng.random() < 0.4:
+        o['debug'] = True
+    if rng.random() < 0.3:
+        o['suppress_warnings'] = True
+    if cls != 'Numerical':               # NumericalGrader pins samples = 1 and failable_evals = 0
+        n = rng.choice([None, None, 1, 2, 3])
+        if n and cls != 'Sum':
+            o['samples'] = n
+        if rng.random() < 0.3 and o.get('samples', 5) >= 2:
+            o['failable_evals'] = 1
+    if cls == 'List' and rng.random() < 0.4:
+        o['_list_debug'] = True
+    return o
+
+
 def restricted_terms(rng, cfg, restricted, allowed, scalar_vars=('x', 'y')):
     """candidate (kind, T, harmless twin T', expectation) for this configuration"""
     out = []
@@ -383,6 +403,7 @@ class Gen:
     def scalar_family(self, cls, n_cheats):
         rng = self.rng
         cfg, restricted, allowed = base_cfg(rng)
+        cfg.update(author_options(rng, cls))
         mode = rng.random()
         if cls == 'Numerical':
             for k in ('variables', 'numbered_vars', 'sample_from'):
@@ -442,6 +463,7 @@ class Gen:
     def matrix_family(self, n_cheats):
         rng = self.rng
         cfg, restricted, allowed = base_cfg(rng)
+        cfg.update(author_options(rng, 'Matrix'))
         cfg['max_array_dim'] = 1
         if rng.random() < 0.3:
             cfg['entry_partial_credit'] = 'proportional'
@@ -466,6 +488,7 @@ class Gen:
     def sum_family(self, n_cheats):
         rng = self.rng
         cfg, restricted, allowed = base_cfg(rng)
+        cfg.update(author_options(rng, 'Sum'))
         cfg['variables'] = ['a', 'z', 'w']
         cfg['numbered_vars'] = []
         cfg['sample_from'] = {'a': [1, 3], 'z': [1, 3], 'w': [1, 3]}
@@ -529,6 +552,7 @@ class Gen:
     def list_family(self, n_cheats):
         rng = self.rng
         cfg, restricted, allowed = base_cfg(rng)
+        cfg.update(author_options(rng, 'List'))
         A1, H1 = rng.choice(FORMULA_PROBLEMS[:5])
         A3, H3 = rng.choice(FORMULA_PROBLEMS[:5])
         shape = rng.choice(['1<-2', '2<-1', '2<-1,3', '1<-2,3'])
@@ -571,6 +595,43 @@ class Gen:
                  term='A_{1}', corpus='format')
         self.add('Formula', cfg, 'x*a_{1}+y', 'y+a_{1}*x+0*A_{2}', 'undefined', 'undefined', honest=honest, twin=twin, term='A_{2}')
 
+    def options_corpus(self):
+        """deterministic: instructor, sibling and undefined names under debug=True / several samples / failable_evals"""
+        for opts in ({'debug': True}, {'debug': True, 'samples': 2, 'failable_evals': 1}, {'samples': 3, 'failable_evals': 2},
+                     {'suppress_warnings': True, 'debug': True}):
+            cfg = {'variables': ['x', 'z'], 'instructor_vars': ['z', 'c'], 'user_constants': {'c': 3.0}, 'user_functions': ['uf'],
+                   'blacklist': ['tan'], 'forbidden_message': FORBIDDEN_MESSAGE, 'sample_from': {'x': [1, 3], 'z': [1, 3]}}
+            cfg.update(opts)
+            honest = self.add('Formula', cfg, 'x+1+z-z', 'x+1', 'honest', 'credit', author_uses_restricted=True)
+            twin = self.add('Formula', cfg, 'x+1+z-z', 'x+1+x-x', 'control', 'credit', honest=honest)
+            for kind, inp, term, expect in [('instructor', 'x+1+z-z', 'z', 'undefined'), ('instructor', 'x+1+0*c', 'c', 'undefined'),
+                                            ('undefined', 'x+1+0*q', 'q', 'undefined'), ('func', 'x+1+0*tan(x)', 'tan(x)', 'invalid')]:
+                self.add('Formula', cfg, 'x+1+z-z', inp, kind, expect, honest=honest, twin=twin, term=term, corpus='options')
+            mcfg = dict(cfg, max_array_dim=1)
+            honest = self.add('Matrix', mcfg, '[x,1]+0*z*[1,1]', '[x,1]', 'honest', 'credit', author_uses_restricted=True)
+            self.add('Matrix', mcfg, '[x,1]+0*z*[1,1]', '[x+0*z,z/z]', 'instructor', 'undefined', honest=honest, twin=honest,
+                     term='z', corpus='options')
+            ncfg = {'user_constants': {'c': 3.0, 'd': 2.0}, 'instructor_vars': ['c', 'pi'], 'user_functions': [],
+                    'forbidden_message': FORBIDDEN_MESSAGE}
+            ncfg.update({k: v for k, v in opts.items() if k in ('debug', 'suppress_warnings')})
+            honest = self.add('Numerical', ncfg, '2*c+1', '7', 'honest', 'credit', author_uses_restricted=True)
+            self.add('Numerical', ncfg, '2*c+1', '7+pi-pi', 'instructor', 'undefined', honest=honest, twin=honest, term='pi',
+                     corpus='options')
+            for list_debug in (False, True):
+                lcfg = {'variables': ['x'], 'user_functions': [], 'forbidden_message': FORBIDDEN_MESSAGE, '_list_debug': list_debug}
+                lcfg.update(opts)
+                answers = ['x^2', 'sibling_1+1']
+                honest = self.add('List', lcfg, answers, ['x^2', 'x^2+1'], 'honest', 'credit', shape='2<-1')
+                self.add('List', lcfg, answers, ['x^2', 'sibling_1+1'], 'sibling', 'undefined', honest=honest, twin=honest,
+                         term='sibling_1', box=1, shape='2<-1', corpus='options')
+            scfg = {'variables': ['a', 'z'], 'instructor_vars': ['z'], 'user_functions': [], 'forbidden_message': FORBIDDEN_MESSAGE,
+                    'tolerance': 1e-9, 'input_positions': {k: i + 1 for i, k in enumerate(FIELDS)}}
+            scfg.update({k: v for k, v in opts.items() if k != 'samples'})
+            author = {'lower': '1', 'upper': '4', 'summand': 'a*n', 'summation_variable': 'n'}
+            honest = self.add('Sum', scfg, author, ['1', '4', 'a*n', 'n'], 'honest', 'credit', entered=FIELDS)
+            self.add('Sum', scfg, author, ['1', '4', 'a*n+0*z', 'n'], 'instructor', 'undefined', honest=honest, twin=honest,
+                     entered=FIELDS, term='z', place='summand', corpus='options')
+
     def list_corpus(self):
         cfg = {'variables': ['x'], 'user_functions': [], 'forbidden_message': FORBIDDEN_MESSAGE}
         answers = ['sibling_2^2', 'x+1']
@@ -588,6 +649,7 @@ def generate(seed, tier, escalate):
     g.sum_corpus()
     g.list_corpus()
     g.format_corpus()
+    g.options_corpus()
     if tier == 'thorough':
         fam = {'Formula': 260, 'Numerical': 90, 'Matrix': 130, 'Sum': 170, 'List': 90}
         per = 8
